@@ -978,7 +978,11 @@ class C14(Property):
         modes = inner_modes(case)
         scripts = clist([self._script(case, th, o, retries.get(t, []), modes.get(t, "own"))
                          for t, (th, o) in enumerate(zip(case["threads"], obs["threads"]))])
+        nobody = len(case["threads"]) + 1   # a driver call logged while no transaction was running (tid < 0): nobody's
+
         def ent(e, m):
+            if e[0] < 0:
+                e = [nobody] + list(e[1:])
             call = ("CBeginRetry" if m else {"begin": "CBegin", "commit": "CCommit", "rollback": "CRollback"}.get(e[2])
                     or "(CStmt %s %s)" % (cz(e[3]), KIND[e[2]]))
             if e[4] == "fail" and e[5] != "generic":
